@@ -3,7 +3,6 @@ package object
 import (
 	"bytes"
 	"context"
-	"encoding/json"
 	"fmt"
 	"strings"
 
@@ -415,11 +414,7 @@ func (ls *List) Reverse() {
 }
 
 func (ls *List) Interface() interface{} {
-	items := make([]interface{}, 0, len(ls.items))
-	for _, item := range ls.items {
-		items = append(items, item.Interface())
-	}
-	return items
+	return ls.interfaceVisit(&visit{})
 }
 
 func (ls *List) String() string {
@@ -427,46 +422,11 @@ func (ls *List) String() string {
 }
 
 func (ls *List) Compare(other Object) (int, error) {
-	otherList, ok := other.(*List)
-	if !ok {
-		return 0, errz.TypeErrorf("type error: unable to compare list and %s", other.Type())
-	}
-	if len(ls.items) > len(otherList.items) {
-		return 1, nil
-	} else if len(ls.items) < len(otherList.items) {
-		return -1, nil
-	}
-	for i := 0; i < len(ls.items); i++ {
-		comparable, ok := ls.items[i].(Comparable)
-		if !ok {
-			return 0, errz.TypeErrorf("type error: %s object is not comparable", ls.items[i].Type())
-		}
-		comp, err := comparable.Compare(otherList.items[i])
-		if err != nil {
-			return 0, err
-		}
-		if comp != 0 {
-			return comp, nil
-		}
-	}
-	return 0, nil
+	return ls.compareVisit(other, &visit{})
 }
 
 func (ls *List) Equals(other Object) Object {
-	if other.Type() != LIST {
-		return False
-	}
-	otherList := other.(*List)
-	if len(ls.items) != len(otherList.items) {
-		return False
-	}
-	for i, v := range ls.items {
-		otherV := otherList.items[i]
-		if !Equals(v, otherV) {
-			return False
-		}
-	}
-	return True
+	return NewBool(ls.equalsVisit(other, &visit{}))
 }
 
 func (ls *List) IsTruthy() bool {
@@ -595,7 +555,7 @@ func (ls *List) Cost() int {
 }
 
 func (ls *List) MarshalJSON() ([]byte, error) {
-	return json.Marshal(ls.items)
+	return ls.marshalVisit(&visit{})
 }
 
 func NewList(items []Object) *List {
